@@ -208,6 +208,7 @@ Section StInd.
   Hypothesis Hcall : forall f args, Forall P args -> P (SCall f args).
   Hypothesis Hlist : forall es, Forall P es -> P (SLst es).
   Hypothesis Hmap : forall kvs, Forall (fun kv => P (fst kv) /\ P (snd kv)) kvs -> P (SMap kvs).
+  Hypothesis Hmsg : forall lead names fields, Forall (fun nv => P (snd nv)) fields -> P (SMsg lead names fields).
   Hypothesis Hnot : forall n a, P a -> P (SNot n a).
   Hypothesis Hneg : forall n a, P a -> P (SNeg n a).
   Hypothesis Hmul : forall op a b, P a -> P b -> P (SMul op a b).
@@ -238,6 +239,12 @@ Section StInd.
                                                    | (k, v) => conj (st_ind' k) (st_ind' v)
                                                    end) (go l')
                                end) kvs)
+    | SMsg lead names fields =>
+        Hmsg lead names fields ((fix go (l : list (str * st)) : Forall (fun nv => P (snd nv)) l :=
+                                  match l with
+                                  | [] => Forall_nil _
+                                  | nv :: l' => Forall_cons nv (st_ind' (snd nv)) (go l')
+                                  end) fields)
     | SNot n a => Hnot n a (st_ind' a)
     | SNeg n a => Hneg n a (st_ind' a)
     | SMul op a b => Hmul op a b (st_ind' a) (st_ind' b)
@@ -285,7 +292,7 @@ Qed.
 (** heads: a rendering starts with a token that starts a primary, or a prefix operator *)
 Definition prim_start (t : tk) : bool :=
   match t with
-  | TIdent _ | TInt _ | TUint _ | TFloat _ | TString _ | TBytes _ | TTrue | TFalse | TNull | TLParen | TLBracket | TLBrace => true
+  | TIdent _ | TInt _ | TUint _ | TFloat _ | TString _ | TBytes _ | TTrue | TFalse | TNull | TLParen | TLBracket | TLBrace | TDot => true
   | _ => false
   end.
 Definition hd_prim (ts : list tk) : Prop := match ts with t :: _ => prim_start t = true | [] => False end.
@@ -305,13 +312,15 @@ Proof.
   induction t using st_ind'; unfold tk_at; cbn [prec Nat.leb raw]; try exact eq_refl;
     try (fold (tk_at 7 t); apply hd_prim_app; exact IHt);
     try (fold (tk_at 7 t1); apply hd_prim_app; exact IHt1).
-  apply lit_tk_start.
+  - apply lit_tk_start.
+  - destruct lead; [reflexivity|]. destruct names as [|a [|b r]]; reflexivity.
 Qed.
 Lemma tk_hd l t : hd_expr (raw t) -> hd_expr (tk_at l t).
 Proof. unfold tk_at. destruct (l <=? prec t); [auto|]. intros _. cbn. auto. Qed.
 Lemma raw_hd t : hd_expr (raw t).
 Proof.
-  induction t using st_ind'; cbn [raw]; try (cbn; auto; fail).
+  induction t using st_ind'; cbn [raw]; try (cbn; auto; fail);
+    try (destruct lead; [cbn; auto|destruct names as [|a [|b r]]; cbn; auto]; fail).
   - cbn. left. apply lit_tk_start.
   - fold (tk_at 7 t). apply hd_expr_app, hd_prim_expr, tk7_prim.
   - fold (tk_at 7 t1). apply hd_expr_app, hd_prim_expr, tk7_prim.
@@ -673,6 +682,55 @@ Proof.
       unfold entries_ast. cbn [map rev fst snd]. now rewrite <- !app_assoc.
 Qed.
 
+(** message literals:  [.]a.b.T{f1: v1, ...} *)
+Fixpoint fields_tk (l : list (str * st)) : list tk :=
+  match l with
+  | [] => []
+  | (n, v) :: l' => TIdent n :: TColon :: raw v ++ match l' with [] => [] | _ => TComma :: fields_tk l' end
+  end.
+Definition fields_ast (l : list (str * st)) : list (str * expr) := map (fun nv => (fst nv, ast (snd nv))) l.
+
+Lemma raw_msg lead names fields :
+  raw (SMsg lead names fields) = (if lead then [TDot] else []) ++ ids_tk names ++ [TLBrace] ++ fields_tk fields ++ [TRBrace].
+Proof. reflexivity. Qed.
+Lemma ast_msg lead names fields :
+  ast (SMsg lead names fields) = EStruct (if lead then 46%N :: join_dots names else join_dots names) (fields_ast fields).
+Proof.
+  cbn [ast]. f_equal. unfold fields_ast. induction fields as [|[n v] l IH]; [reflexivity|]. cbn [map fst snd]. now rewrite <- IH.
+Qed.
+
+Lemma msg_prefix_ok names : names <> [] -> forall fuel acc r, length names <= fuel ->
+  msg_prefix fuel (ids_tk names ++ TLBrace :: r) acc = Some (rev' (rev names ++ acc), r).
+Proof.
+  induction names as [|a names IH]; intros Hne fuel acc r Hf; [congruence|].
+  destruct fuel as [|fuel]; [cbn in Hf; lia|]. destruct names as [|b names'].
+  - cbn [ids_tk app msg_prefix rev]. reflexivity.
+  - change (ids_tk (a :: b :: names')) with (TIdent a :: TDot :: ids_tk (b :: names')).
+    cbn [app msg_prefix]. rewrite (IH ltac:(discriminate) fuel (a :: acc) r ltac:(cbn [length] in *; lia)).
+    cbn [rev]. now rewrite <- !app_assoc.
+Qed.
+
+Lemma fields_ok l : Forall (fun nv => Par (snd nv)) l -> forall acc R,
+  ev (fun f => p_fields f acc (fields_tk l ++ TRBrace :: R)) (POk (rev' (rev (fields_ast l) ++ acc)) R).
+Proof.
+  induction 1 as [|[n v] l Hv Hl IH]; intros acc R.
+  - exists 1. intros [|f] Hf; [lia|]. reflexivity.
+  - cbn [snd] in Hv. cbn [fields_tk]. destruct l as [|nv l'].
+    + rewrite app_nil_r. cbn [app].
+      destruct (Hv 0 ltac:(lia) (TRBrace :: R) (stops0_closer TRBrace R I)) as [n1 H1].
+      rewrite (tk_raw 0 v) in H1 by lia. cbn [p_at] in H1.
+      exists (S n1). intros [|f] Hf; [lia|]. rewrite u_fields, H1 by lia. reflexivity.
+    + cbn [app]. rewrite <- app_assoc. cbn [app].
+      destruct (Hv 0 ltac:(lia) (TComma :: fields_tk (nv :: l') ++ TRBrace :: R) (stops0_closer TComma _ I)) as [n1 H1].
+      rewrite (tk_raw 0 v) in H1 by lia. cbn [p_at] in H1.
+      destruct (IH ((n, ast v) :: acc) R) as [n2 H2].
+      exists (S (max n1 n2)). intros [|f] Hf; [lia|]. rewrite u_fields, H1 by lia. rewrite H2 by lia.
+      unfold fields_ast. cbn [map rev fst snd]. now rewrite <- !app_assoc.
+Qed.
+
+Lemma fields_tk_head l R : match fields_tk l ++ TRBrace :: R with TComma :: TRBrace :: _ => False | _ => True end.
+Proof. destruct l as [|[n v] l]; cbn; exact I. Qed.
+
 Lemma mk_call_plain g tgt args rest : no_macro g (match tgt with Some _ => true | None => false end) (length args) = true ->
   mk_call g tgt args rest = POk (ECall g tgt args) rest.
 Proof.
@@ -819,6 +877,39 @@ Proof.
       pose proof (hd_not_closer (raw k) (([TColon] ++ raw v ++ match l with [] => [] | _ :: _ => TComma :: entries_tk l end) ++ TRBrace :: R) (raw_hd k)) as Hh.
       destruct (raw k ++ _) as [|t0 r]; [reflexivity|]. destruct t0; try reflexivity; contradiction. }
     rewrite E. rewrite ast_map in HX. apply HX. lia.
+  - (* message literal *)
+    destruct W as [Wn Wf].
+    assert (Pf : Forall (fun nv => Par (snd nv)) fields).
+    { clear Wn. induction H as [|[n v] l Hv _ IH]; [constructor|]. destruct Wf as [Wv Wl].
+      constructor; [exact (proj1 (Hv Wv))|exact (IH Wl)]. }
+    apply good_prim; [reflexivity|]. intros R X HR [n HX].
+    rewrite (tk_raw 7 (SMsg lead names fields)) by (cbn; lia). rewrite raw_msg, <- !app_assoc. cbn [app].
+    destruct (fields_ok fields Pf [] R) as [n1 H1].
+    exists (S (S (max n n1))). intros [|[|f0]] Hf; try lia. rewrite u_member.
+    assert (E : p_primary (S f0) ((if lead then [TDot] else []) ++ ids_tk names ++ TLBrace :: fields_tk fields ++ TRBrace :: R) =
+                POk (EStruct (if lead then 46%N :: join_dots names else join_dots names) (fields_ast fields)) R).
+    { assert (IF : forall b, ident_forms f0 b (ids_tk names ++ TLBrace :: fields_tk fields ++ TRBrace :: R) =
+                   POk (EStruct (if b then 46%N :: join_dots names else join_dots names) (fields_ast fields)) R).
+      { intros b. unfold ident_forms.
+        rewrite (msg_prefix_ok names Wn _ [] (fields_tk fields ++ TRBrace :: R))
+          by (rewrite app_length; assert (length names <= length (ids_tk names)); [|lia];
+              clear; induction names as [|a [|b0 r] IHn]; cbn [ids_tk length] in *; lia).
+        rewrite app_nil_r, rev'_rev, rev_involutive.
+        pose proof (fields_tk_head fields R) as Hh.
+        destruct (fields_tk fields ++ TRBrace :: R) as [|t0 r0] eqn:Er; [destruct fields as [|[? ?] ?]; discriminate|].
+        assert (G : match p_fields f0 [] (t0 :: r0) with
+                    | POk fs ts2 => let n0 := join_dots names in POk (EStruct (if b then 46%N :: n0 else n0) fs) ts2
+                    | PFail => PFail | PFuel => PFuel end =
+                    POk (EStruct (if b then 46%N :: join_dots names else join_dots names) (fields_ast fields)) R).
+        { rewrite H1 by lia. now rewrite app_nil_r, rev'_rev, rev_involutive. }
+        destruct t0; try exact G. destruct r0 as [|t1 r1]; [exact G|]. destruct t1; try exact G. contradiction. }
+      rewrite u_primary. destruct lead; cbn [app].
+      - apply IF.
+      - destruct names as [|a names']; [congruence|]. specialize (IF false).
+        set (ts := ids_tk (a :: names') ++ TLBrace :: fields_tk fields ++ TRBrace :: R) in *.
+        assert (Hd : exists r', ts = TIdent a :: r') by (unfold ts; destruct names'; cbn [ids_tk app]; eauto).
+        destruct Hd as [r' Hr]. clearbody ts. subst ts. exact IF. }
+    rewrite E. rewrite ast_msg in HX. apply HX. lia.
   - (* '!' run *)
     destruct (IHt W) as (Pa & _).
     assert (HP : Par (SNot n t)).
